@@ -97,6 +97,7 @@ def check(run) -> None:
         run_packed(run, [s for s in clean if not s["defs"]], "function", "foldsite", counts, size=16, prefix="pkf")
     langprobes.run_probes(run, "C03")
     device_part(run, quick)
+    lcd_part(run)
     run.cov["outcomes"] = counts
     run.cov["probe_stratum_candidates"] = {k: len(v) for k, v in st.probe.items()}
 
@@ -139,3 +140,67 @@ def selftest(seed: int) -> int:
     v = validate("LedTrace", "LedTrace.cfg", [{"id": "stale", "side": "fw", "ev": tr}])["stale"]
     print(v)
     return 0 if not v["ok"] else 1
+
+
+# ------------------------------------------------------------------------------------------------ LCD flags and arguments
+def _lcd_cases() -> list:
+    """Short in-range LCD histories in which boolean flags (clear_row / clear_rows / display / backlight) and numeric
+    arguments matter to what ends up in the cells and on the backlight pin."""
+    from checks.c17 import C, G, txt
+    both = (True, False)
+    cases = []
+    for f in both:
+        cases.append({"g": G(8, 2), "h": [C("line", i=[0], t=[txt("abcdefgh")], s=["left"], b=[True]),
+                                           C("write", i=[3, 0], t=[txt("XY")], s=["left"], b=[f]),
+                                           C("line", i=[1], t=[txt("q")], s=["right"], b=[not f])]})
+        cases.append({"g": G(8, 2), "h": [C("message", t=[txt("topline"), txt("bottom")], s=["left", "left"], b=[True, True, True]),
+                                           C("message", t=[txt("t"), txt("b")], s=["center", "right"], b=[f, True, True])]})
+        cases.append({"g": G(16, 2, "parallel", True), "h": [C("brightness", i=[120]), C("backlight", b=[f]), C("brightness", i=[40]),
+                                                               C("display", b=[not f]), C("backlight", b=[not f]), C("display", b=[f])]})
+        cases.append({"g": G(16, 2, "i2c"), "h": [C("line", i=[0], t=[txt("hello")], s=["left"], b=[True]), C("display", b=[f]),
+                                                   C("backlight", b=[not f]), C("write", i=[2, 1], t=[txt("zz")], s=["left"], b=[f])]})
+    return cases
+
+
+def lcd_part(run) -> None:
+    from harness import lcd_text
+    cases = _lcd_cases()
+    jobs = [(cases, r) for r in fw_act.ROUTINGS]
+    with cf.ProcessPoolExecutor(max_workers=min(NCPU, 8)) as ex:
+        results = list(ex.map(_lcd_job, jobs, chunksize=1))
+    traces, meta = [], {}
+    for (_cs, r), res in zip(jobs, results):
+        if "traces" not in res:
+            run.count(f"lcd:{r}")
+            if res["transpile"] == "reject":
+                run.cov["rejected"] = run.cov.get("rejected", 0) + 1
+            elif res["transpile"] == "accept":
+                run.cov["compile_fail_see_C06"] = run.cov.get("compile_fail_see_C06", 0) + 1
+            else:
+                run.violation(f"lcd/{r}: transpiler {res['transpile']} ({res.get('cls')}: {res.get('msg')})", {"routing": r, "script": res["src"]})
+            continue
+        for k, (case, tr) in enumerate(zip(cases, res["traces"])):
+            tid = f"lcd-{r}-{k}"
+            run.count(f"lcd:{r}:{k}")
+            if tr is None:
+                run.violation(f"lcd/{r}: firmware trace lacks its call markers", {"routing": r, "g": case["g"], "history": case["h"], "script": res["src"]})
+                continue
+            traces.append({"id": tid, "side": "fw", "g": case["g"], "ev": tr})
+            meta[tid] = (case, r, res["src"], res["inputs"])
+    if not traces:
+        return
+    verdicts = validate("LCDTextTrace", "LCDTextTrace.cfg", traces, run, label="LCD flags x routings")
+    for tid, v in verdicts.items():
+        case, r, src, inputs = meta[tid]
+        if not v["ok"]:
+            ev = next(t for t in traces if t["id"] == tid)["ev"]
+            e = ev[v["l"] - 1]
+            run.violation(f"lcd: flag / argument routed as '{r}' reaches the display changed: call {v['l'] - 1} leaves the specification "
+                          f"({v['clause']}): {json.dumps({k: e[k] for k in ('act', 'i', 'b', 'cell', 'pin')})[:260]}",
+                          {"device": "lcd", "g": case["g"], "history": case["h"], "routing": r, "verdict": v, "script": src, "inputs": inputs})
+
+
+def _lcd_job(args):
+    from harness import lcd_text
+    cases, routing = args
+    return lcd_text.run_pack(cases, routing)
